@@ -2,11 +2,13 @@ module harness
 
 go 1.23
 
-require github.com/llir/llvm v0.0.0
+require (
+	github.com/llir/llvm v0.0.0
+	github.com/mewmew/float v0.0.0-20201204173432-505706aa38fa
+)
 
 require (
 	github.com/llir/ll v0.0.0-20220802205332-9207a04d0275 // indirect
-	github.com/mewmew/float v0.0.0-20201204173432-505706aa38fa // indirect
 	github.com/pkg/errors v0.9.1 // indirect
 )
 
